@@ -229,6 +229,8 @@ SHIM_MAP = {
     # library function (generic def path) -> safe stand-in in /verif/shims/src/lib.rs
     'core::slice::<impl [T]>::iter': 'slice_iter',
     "core::slice::Iter::<'a, T>::new": 'slice_iter',
+    "core::array::<impl core::iter::IntoIterator for &'a [T; N]>::into_iter": 'slice_iter',
+    "core::slice::iter::<impl core::iter::IntoIterator for &'a [T]>::into_iter": 'slice_iter',
     "<core::slice::Iter<'a, T> as core::iter::Iterator>::next": 'iter_next',
     "<core::slice::Iter<'a, T> as core::iter::Iterator>::find": 'iter_find',
     "<core::slice::Iter<'a, T> as core::iter::Iterator>::find_map": 'iter_find_map',
@@ -1136,9 +1138,10 @@ class Engine:
                 rv = st.store.get(('L', fr.uid, 0))
                 st.frames.pop()
                 caller = st.frames[-1]
-                # free callee locals
-                for c in [c for c in st.store if c[0] == 'L' and c[1] == fr.uid]:
-                    del st.store[c]
+                # free callee locals (a promoted constant's value may point into its own frame: keep those)
+                if not (isinstance(fr.ret_to, tuple) and fr.ret_to[0] == 'store'):
+                    for c in [c for c in st.store if c[0] == 'L' and c[1] == fr.uid]:
+                        del st.store[c]
                 if rv is None:
                     rv = ('adt', '(tuple)', 0, ())
                 if isinstance(fr.ret_to, tuple) and fr.ret_to[0] == 'store':
